@@ -73,6 +73,7 @@ enum FaultKind {
     F_IO_DATA = 0,   // nth data-transfer MPI-IO call (>=1 byte) during op on rank fails with errclass
     F_OPEN, F_CLOSE, F_SYNC, F_SETSIZE, F_DELETE, F_SETVIEW,
     F_POSIX_SHORT,   // nth wrapped POSIX read/write is short (arg = divisor) or EINTR (arg=0)
+    F_IO_ZERO,       // nth ZERO-byte collective data-transfer MPI-IO call during op on rank fails with errclass (a rank that only participates)
     F_KIND_COUNT
 };
 extern const char *fault_kind_name[];
